@@ -183,7 +183,9 @@ def u8(s):
     return s.encode("utf-8").decode("latin-1")
 
 
-NAMES = ["a", "b", "chr1", "seq0", "X", u8("chr\u03a9"), u8("\u00e9\u20ac")]
+NAMES = ["a", "b", "chr1", "seq0", "X", u8("chr\u03a9"), u8("\u00e9\u20ac"),
+         # names with the characters other notations use as separators (a contig name is any run of non-blank characters)
+         "HLA-A*01:01:01", "chr6:alt|x", "c-+:"]
 
 
 def gen_blocks(rng, shape):
